@@ -2,7 +2,11 @@
 
 package varlink
 
-import "net"
+import (
+	"net"
+
+	"github.com/varlink/go/varlink/internal/ctxio"
+)
 
 // VerifSetListener installs l as if Bind had created it (white-box hook used only by /verif).
 func (s *Service) VerifSetListener(l net.Listener) {
@@ -17,4 +21,9 @@ func (s *Service) VerifActiveConnections() int64 {
 	n := s.conncounter
 	s.mutex.Unlock()
 	return n
+}
+
+// VerifNewConnection wraps an already established net.Conn exactly as NewConnection does after dialling.
+func VerifNewConnection(c net.Conn) *Connection {
+	return &Connection{conn: ctxio.NewConn(c)}
 }
